@@ -1,6 +1,8 @@
 package c15
 
 import (
+	"pgregory.net/rapid"
+	"verif/internal/ref"
 	"fmt"
 	"os"
 	"strings"
@@ -10,7 +12,6 @@ import (
 	"verif/internal/run"
 )
 
-func TestMain(m *testing.M) { fw.Main(m) }
 
 func TestProbe(t *testing.T) {
 	b, err := os.ReadFile(os.Getenv("PROBE_FILE"))
@@ -23,4 +24,22 @@ func TestProbe(t *testing.T) {
 		fmt.Printf("--- program %d ---\n%s\n--- out ---\n%s--- flow=%d err=%v class=%s views=%d\n", i, prog, s.Out.String(), r.Flow, r.Err, run.ErrClass(r.Err), len(r.Views))
 		s.Close()
 	}
+}
+
+func TestSamples(t *testing.T) {
+	if os.Getenv("C15_SAMPLES") == "" {
+		t.Skip()
+	}
+	n := 0
+	rapid.Check(t, func(rt *rapid.T) {
+		c := genProg(rt)
+		w := ref.RunProc(c.Prog, ref.POpt{})
+		if f := os.Getenv("C15_FILTER"); f != "" && w.Err != f && w.Discard != f {
+			return
+		}
+		n++
+		if n <= 6 {
+			fmt.Printf("=== sample %d\n%s--- out=%v err=%q exit=%v discard=%q stats=%+v\n", n, c.Text, w.Out, w.Err, w.Exit, w.Discard, w.Stats)
+		}
+	})
 }
